@@ -88,9 +88,11 @@ def register(reg):
     c.trusted('text used in log / error messages only')
 
   register_stream_transport(reg)
+  reg.replayers['AdbConnection.close_stream_transport'] = replay_close_stream_transport
   register_connection(reg)
   register_stream(reg)
   register_connect(reg)
+  register_handshake(reg)
 
 
 VALID_MSG = ("({k})".format(k=' or '.join("message._command == wire_command('%s')" % n for n in NAMES)) +
@@ -299,3 +301,113 @@ def register_connect(reg):
   c.raises('AdbProtocolError')
   c.modifies('self.systemtype', 'self.serial', 'self.banner', 'self.transport', 'self.maxdata', 'self._last_id_used', 'self._reader_lock', 'self._open_lock',
              'self._stream_transport_map', 'self._stream_transport_map_lock')
+
+
+def register_handshake(reg):
+  from pyvc.values import VBool as _VB
+  from pyvc.state import Obligation
+  reg.global_overrides.setdefault('openhtf.plugs.usb.adb_protocol', {})['ADB_MESSAGE_LOG'] = lambda ex, st: _VB(False)
+  from pyvc.opaque import pure_function
+  small = lambda t: [z3.Length(t) < 2**31]
+  _sign = pure_function('signer_sign', 'str', facts=small)
+
+  def sign(ex, st, fn, pos, kwargs):
+    # the challenge being signed is the last packet read_until handed out (ghost $challenge, set by its hook)
+    if 'sg.n' in st.ghost and 'msg' in st.env:
+      # the challenge being answered is the caller's current `msg` (the last packet read_until handed out)
+      ex.ctx.obligations.append(Obligation('%s/order.only_TOKEN_challenges_are_signed' % ex.ctx.unit, 'order', list(st.pc),
+                                           ex.read_field(st, st.env['msg'], 'arg0').t == 1, '',
+                                           {'msg': 'a signature is produced for an AUTH packet that is not a TOKEN challenge'}))
+      st.ghost['sg.key'] = VSeq(z3.Store(st.ghost['sg.key'].t, st.ghost['sg.n'].t, getattr(fn, 'owner', fn).t))
+      st.ghost['sg.n'] = VInt(st.ghost['sg.n'].t + 1)
+    return _sign(ex, st, fn, pos, kwargs)
+  reg.opaque['signer.sign'] = sign
+  reg.opaque['signer.get_public_key'] = pure_function('signer_get_public_key', 'str', nargs=0, facts=small)
+  reg.private_exceptions.update(['DeviceAuthError', 'AdbProtocolError', 'AdbTimeoutError'])
+  reg.trusted_methods[('*', 'with_traceback')] = lambda ex, st, a, k: [(st, a[0])]
+
+  for c in reg.contracts:
+    if c.name == 'AdbConnection.__init__':
+      reg.by_func[(c.finfo.module.name, c.finfo.qualname)] = c
+
+  c = reg.contract('openhtf/plugs/usb/usb_exceptions.py', 'LibusbWrappingError.is_timeout', props=())
+  c.returns('bool').modifies()
+  c.trusted('compares the wrapped libusb error code with LIBUSB_ERROR_TIMEOUT')
+
+  c = reg.contract(A, 'AdbTransportAdapter.read_until', props=())
+  c.param('expected_commands', 'val').param('timeout', 'ref:PolledTimeout').returns('ref:AdbMessage')
+  c.ghost('rx.cursor', 'int').ghost('rx.cmd', 'seq[int]', const=True).ghost('rx.arg0', 'seq[int]', const=True)
+  c.ghost('rx.arg1', 'seq[int]', const=True).ghost('rx.data', 'seq[str]', const=True)
+  k = "(ghost('rx.cursor') - 1)"
+  c.ensures('the_next_expected_packet_of_the_device_script',
+            "ghost('rx.cursor') > old(ghost('rx.cursor')) and is_fresh(result) and result._command == ghost('rx.cmd')[{k}] and result.arg0 == ghost('rx.arg0')[{k}] and "
+            "result.arg1 == ghost('rx.arg1')[{k}] and result.data == ghost('rx.data')[{k}]".format(k=k))
+  c.ensures('a_known_command', ' or '.join("result._command == wire_command('%s')" % n for n in NAMES))
+  c.ensures('a_well_formed_packet', '0 <= result.arg0 and result.arg0 < 2**32 and 0 <= result.arg1 and result.arg1 < 2**32 and len(result.data) < 2**31')
+  c.ensures('one_of_the_expected_commands', 'result.command in expected_commands')
+  c.raises('AdbTimeoutError').raises('UsbReadFailedError').raises('AdbProtocolError').raises('AdbDataIntegrityError')
+  c.modifies()
+  c.trusted('loop_until_timeout_or_valid over read_message: skips packets whose command is not expected (ADB: packets before CNXN are ignored)')
+
+  # ---------------------------------------------------------------- connect
+  c = reg.contract(P, 'AdbConnection.connect', props=['C15'])
+  tx(c)
+  c.ghost('rx.cursor', 'int').ghost('rx.cmd', 'seq[int]', const=True).ghost('rx.arg0', 'seq[int]', const=True)
+  c.ghost('rx.arg1', 'seq[int]', const=True).ghost('rx.data', 'seq[str]', const=True)
+  c.ghost('sg.n', 'int').ghost('sg.key', 'seq[int]')
+  c.param('transport', 'ref:transport').param('rsa_keys', 'opt:list[fn:signer]').param('timeout_ms', 'val{none,int,float}').param('auth_timeout_ms', 'val{none,int,float}')
+  c.returns('ref:AdbConnection')
+  c.requires('script_cursor', "ghost('rx.cursor') >= 0 and ghost('sg.n') >= 0")
+  last = "(ghost('rx.cursor') - 1)"
+  r0 = "old(ghost('rx.cursor'))"
+  s0 = "old(ghost('sg.n'))"
+  c.ensures('opens_with_CNXN', "ghost('tx.n') >= %s + 1 and ghost('tx.cmd')[%s] == wire_command('CNXN')" % (N0, N0))
+  c.ensures('a_connection_only_after_the_devices_CNXN',
+            "ghost('rx.cursor') > {r0} and ghost('rx.cmd')[{k}] == wire_command('CNXN') and result.maxdata == ghost('rx.arg1')[{k}]".format(r0=r0, k=last))
+  c.ensures('keys_are_tried_in_order_each_at_most_once',
+            "ghost('sg.n') - {s0} >= 0 and implies(rsa_keys is not None, ghost('sg.n') - {s0} <= len(rsa_keys) and "
+            "forall_int(lambda j: implies(0 <= j and j < ghost('sg.n') - {s0}, ghost('sg.key')[{s0} + j] == callable_id(rsa_keys[j])))) and "
+            "implies(rsa_keys is None, ghost('sg.n') == {s0})".format(s0=s0))
+  c.ensures('one_message_per_signature_plus_at_most_one_public_key',
+            "ghost('tx.n') - {n0} - 1 >= ghost('sg.n') - {s0} and ghost('tx.n') - {n0} - 1 <= ghost('sg.n') - {s0} + 1".format(n0=N0, s0=s0))
+  c.raises('DeviceAuthError').raises('AdbProtocolError').raises('AdbTimeoutError').raises('UsbReadFailedError').raises('UsbWriteFailedError')
+  c.raises('AdbDataIntegrityError')
+  c.modifies()
+  c.loop('for rsa_key in rsa_keys',
+         inv=[('one_signature_per_key_so_far', "ghost('tx.n') == %s + 1 + _i and ghost('sg.n') == %s + _i" % (N0, s0)),
+              ('opened_with_CNXN', "ghost('tx.cmd')[%s] == wire_command('CNXN') and ghost('rx.cursor') > %s" % (N0, r0)),
+              ('keys_in_order', "forall_int(lambda j: implies(0 <= j and j < _i, ghost('sg.key')[%s + j] == callable_id(rsa_keys[j])))" % s0),
+              ('still_challenged', "msg._command == wire_command('AUTH') and msg._command == ghost('rx.cmd')[ghost('rx.cursor') - 1] and "
+               "msg.arg0 == ghost('rx.arg0')[ghost('rx.cursor') - 1] and msg.arg1 == ghost('rx.arg1')[ghost('rx.cursor') - 1] and "
+               "msg.data == ghost('rx.data')[ghost('rx.cursor') - 1] and len(msg.data) < 2**31")],
+         modifies=[], vars={'msg': 'ref:AdbMessage'})
+
+
+def replay_close_stream_transport(model, ob):
+  """close_stream_transport on concrete maps: exactly one CLSE with the stream's ids iff the id was registered and the
+  stream has a remote id; the id is released."""
+  import sys, types, threading
+  from contracts.c16 import _import_fastboot
+  _import_fastboot()           # installs the libusb1 / package stubs
+  import importlib
+  ap = importlib.import_module('openhtf.plugs.usb.adb_protocol')
+  CS_ = ap.AdbStreamTransport.ClosedState
+  out = {'scenarios': []}
+  bad = False
+  for registered in (True, False):
+    for remote in (None, 9):
+      for state in (CS_.OPEN, CS_.CLOSED, CS_.PENDING):
+        sent = []
+        tr = types.SimpleNamespace(write_message=lambda m, t: sent.append((m.command, m.arg0, m.arg1)))
+        stream = types.SimpleNamespace(local_id=3, remote_id=remote, closed_state=state,
+                                       is_open=lambda: state is CS_.OPEN, is_closed=lambda: state is CS_.CLOSED)
+        me = types.SimpleNamespace(_stream_transport_map={3: stream} if registered else {}, _stream_transport_map_lock=threading.RLock(), transport=tr)
+        me._stream_transport_map[5] = 'other'
+        r = ap.AdbConnection.close_stream_transport(me, stream, None)
+        want = [('CLSE', 3, 9)] if (registered and remote) else []
+        ok = (r == registered) and sent == want and 3 not in me._stream_transport_map and me._stream_transport_map.get(5) == 'other'
+        if not ok:
+          bad = True
+          out['scenarios'].append({'id registered': registered, 'remote id': remote, 'state': state.name, 'returned': r, 'messages sent': sent, 'prescribed': want})
+  out['reproduced'] = bad
+  return out
